@@ -276,7 +276,7 @@ def main(prop: str, tier: str) -> int:
         nrand = 900 if quick else 9000
     for i in range(nrand):
         nsess = 2 if rng.random() < 0.7 else 3
-        idle = prop == 'C16' or rng.random() < 0.25
+        idle = prop == 'C16' or rng.random() < (0.4 if prop == 'C01' else 0.25)
         if prop == 'C16':
             sessions, drive = random_schedule(
                 rng, nsess, rng.randint(3, 8), idle=True, idle_prob=0.7,
@@ -299,7 +299,8 @@ def main(prop: str, tier: str) -> int:
         else:
             sessions, drive = random_schedule(rng, nsess, rng.randint(3, 7), idle=idle,
                                               gate_idlers=rng.random() < 0.3,
-                                              micro=rng.choice([0.0, 0.0, 0.5]))
+                                              micro=rng.choice([0.0, 0.5, 0.9]) if idle else
+                                              rng.choice([0.0, 0.0, 0.5]))
         sr = SyncRun(init_flags=[rng.choice([(), (), ('\\Seen',), ('\\Deleted',)])
                                  for _ in range(rng.randint(2, 4))],
                      sessions=sessions, controlled=True, claim_recent=rng.random() < 0.5)
@@ -314,7 +315,7 @@ def main(prop: str, tier: str) -> int:
 
     # 3a. C01/C02: every pair (and a seeded sample of triples) of mutations by two sessions
     # where the second session has not been told about the first one's change
-    if prop in ('C01', 'C02'):
+    if prop in ('C01', 'C02', 'C04'):
         pair_histories(run, rng, quick, traces, meta)
 
     # 3b. C17: life-cycle histories from the reference model RecentModel.tla (every edge)
@@ -333,6 +334,8 @@ def main(prop: str, tier: str) -> int:
         line, clause = verdicts[i]
         mine = clause.startswith(prefix)
         clause, _, detail = clause.partition(':')
+        if prop == 'C01' and clause == 'C16_PushedBeforeEnd':
+            mine = True      # the client's view has diverged from the server's at the end of IDLE
         if prop == 'C16' and clause.startswith('C01_') and line:
             # "updates pushed during IDLE obey the same sequence-number rules": a C01 clause
             # that fails on data received while idling (or with the tagged end of IDLE) is C16's
@@ -358,7 +361,8 @@ MUTS = [('expunge',), ('uidexpunge', '101'), ('uidexpunge', '101:102'), ('uidexp
         ('store', True, '101:102', '-', False, ('\\Deleted',)), ('store', False, '2', '=', True, ('\\Seen',)),
         ('move', False, '1', 'Box'), ('move', True, '101:103', 'Box'), ('append', 'INBOX', 2, ()),
         ('copy', False, '1:*', 'INBOX'), ('fetch', False, '1:*', True), ('fetch', True, '102', True),
-        ('close+select',)]
+        ('close+select',), ('copy', True, '101:104', 'Box'), ('copy', False, '4,1', 'Box'),
+        ('move', False, '3:4,3', 'Box')]
 
 
 def pair_histories(run, rng, quick, traces, meta) -> None:
